@@ -12,45 +12,47 @@ structure NState where
   reads : List Read := []
   gets : List (Nat × Nat × String × Option Nat) := []   -- call, ret, key, version
   bad : Option String := none
+  /-- a round with 260+ objects per state -/
+  big : Bool := false
 
 def linKeys : List String := ["a/x", "a/y", "b/x", "b/y", "c/x"]
 
 /-- the names of the objects of complete state `k` (the harness builds the same ones) -/
-def linStateNames (j : Nat) : List String :=
+def linStateNames (big : Bool) (j : Nat) : List String :=
   if j == 0 then [] else
   let v := (j + 1) / 2
-  let n := v % 3 + 2
+  let n := if big then 260 + v % 3 else v % 3 + 2
   let n := if j % 2 == 0 then (n + 1) / 2 else n
-  (List.range n).map (fun i => linKeys.getD ((v + i) % 5) "")
+  (List.range n).map (fun i => if big then "n/" ++ toString ((v + i) % 400) else linKeys.getD ((v + i) % 5) "")
 
 def parseItem (s : String) : Option (String × Nat) :=
   match s.splitOn "@" with
   | [n, v] => v.toNat?.map (fun v => (n, v))
   | _ => none
 
-def sameNames (a b : List String) : Bool := a.length == b.length && a.all (b.contains ·) && b.all (a.contains ·)
+def sameNames (a b : List String) : Bool := a.length == b.length && (a.mergeSort (· ≤ ·)) == (b.mergeSort (· ≤ ·))
 
-def classifyRead (items : List String) : Except String Nat :=
+def classifyRead (big : Bool) (items : List String) : Except String Nat :=
   match items.mapM parseItem with
   | none => .error "unparsable item"
   | some [] => .ok 0
   | some ((n, v) :: rest) =>
     let names := ((n, v) :: rest).map (·.1)
     if !(rest.all (·.2 == v)) then .error s!"List() returned a mix of versions {items}: a half-applied relist/refilter"
-    else if sameNames names (linStateNames (2 * v - 1)) then .ok (2 * v - 1)
-    else if sameNames names (linStateNames (2 * v)) then .ok (2 * v)
+    else if sameNames names (linStateNames big (2 * v - 1)) then .ok (2 * v - 1)
+    else if sameNames names (linStateNames big (2 * v)) then .ok (2 * v)
     else .error s!"List() returned {items}, which is neither the complete state of version {v} nor its shrunk successor"
 
 def linLine (st : NState) (e : SExp) : NState × String :=
   match e with
-  | .list [.atom "scenario", _, _] => ({}, "ok")
+  | .list [.atom "scenario", _, .atom m] => ({ big := m == "lin-big" }, "ok")
   | .list [.atom "w", .atom k, .atom c, .atom r] =>
     ({ st with writes := ((k.toNat?).getD 0, (c.toNat?).getD 0, (r.toNat?).getD 0) :: st.writes }, "ok")
   | .list [.atom "r", .atom id, .atom c, .atom r, items] =>
     match items with
     | .atom "err" => ({ st with bad := st.bad.orElse fun _ => some "List() failed while the cache was running" }, "ok")
     | .list xs =>
-      match classifyRead (xs.filterMap SExp.str) with
+      match classifyRead st.big (xs.filterMap SExp.str) with
       | .ok k => ({ st with reads := ⟨(id.toNat?).getD 0, (c.toNat?).getD 0, (r.toNat?).getD 0, k⟩ :: st.reads }, "ok")
       | .error m => ({ st with bad := st.bad.orElse fun _ => some m }, "ok")
     | _ => (st, "bad r")
@@ -76,7 +78,7 @@ def linLine (st : NState) (e : SExp) : NState × String :=
         let (c, r, key, v) := g
         !((List.range (n + 1)).any (fun k =>
           (k == 0 || wcall k < r) && (k == n || c < wret (k + 1)) &&
-          (if (linStateNames k).contains key then v == some ((k + 1) / 2) else v == none))))
+          (if (linStateNames st.big k).contains key then v == some ((k + 1) / 2) else v == none))))
       if !writesSequential ws n then (st, "diff the writer's own history is not sequential (harness fault)") else
       match early, late, inv, getBad with
       | some r, _, _, _ => (st, s!"reject C15 reader {r.id} saw state {r.k} in [{r.call},{r.ret}] before its write was issued at {wcall r.k}")
